@@ -11,7 +11,10 @@ class C02(Spec):
     extra_models = ('treel',)   # pointer-level model (TreeLinksModel.v): must print the same trace
     driver = 'tree'
     lib_srcs = ['bintree.c', 'rbtree.c']
-    header_words = ('keys', 'kind', 'cmpmode', 'vsign')
+    header_words = ('keys', 'kind', 'cmpmode', 'vsign', 'swapobj')
+
+    def more_variants(self, cases, tier, seed):
+        return T.swap_variants(cases, seed, every=3)
     rule = ('cases = corpus + one case per edge of the breadth-first closure of the Coq model of the red-black tree '
             '(all shapes and colourings reachable with 7 elements, keys 0 0 1 1 2 2 3 and 3 1 0 2 1 3 0, in the quick tier; '
             'in addition 8 elements with duplicate and with distinct keys and 6 equal keys in the thorough tier; insert with '
